@@ -275,6 +275,8 @@ impl LangInterpreter for French {
                 {
                     tokens[true_words[i]].set_nan(true);
                 }
+                // the scratch builder must not carry digits over to the next ambiguous word
+                b.reset();
             }
         }
     }
